@@ -7,23 +7,35 @@
 
    Partial: the hypothesis [h3_ints] (the target units heuristic 3 constructs
    have integer exponents) keeps the statement inside exact rational
-   arithmetic; preservation of the DIMENSION vector and absence of the
-   heuristic-3 panic are validated by the correspondence check only. *)
+   arithmetic.  Which unit the registry picks, and that the call sites apply
+   this function, are validated by the correspondence check only. *)
 From Coq Require Import List ZArith QArith Qcanon String Bool.
 From NV Require Import Qty.Model Qty.Exec Qty.Proofs Qty.SimplProofs Qty.TableSem Qty.Good Qty.Demo.
 Import ListNotations.
 Local Open Scope Qc_scope.
 
-(* heuristic simplification preserves the physical magnitude *)
+(* full_simplify never panics (any number type): since the fix of finding
+   C05-h3-unwrap-panic a unit group that cannot be converted to the guessed target
+   makes the function return its argument *)
+Theorem C05_no_panic :
+  forall (T : Type) (N : numops T) tbl res keys q,
+    exists q', full_simplify N tbl res keys q = Ok q'.
+Proof. intros T N tbl res keys q. exact (full_simplify_total N tbl res keys q). Qed.
+Print Assumptions C05_no_panic.
+
+(* heuristic simplification preserves the physical magnitude and, for a non-zero
+   value, the dimension vector *)
 Theorem C05_preserves_partial :
   forall tbl, good_table tbl -> forall keys q q',
     unit_int (q_unit q) = true ->
     h3_ints tbl (resolve QcN tbl) keys (chunk_by_key keys (canon keys (q_unit q))) ->
     full_simplify QcN tbl (resolve QcN tbl) keys q = Ok q' ->
-    DenQ (resolve QcN tbl) q' = DenQ (resolve QcN tbl) q.
+    DenQ (resolve QcN tbl) q' = DenQ (resolve QcN tbl) q
+    /\ (q_val q <> 0 ->
+        forall x, dimv (resolve QcN tbl) (q_unit q') x = dimv (resolve QcN tbl) (q_unit q) x).
 Proof.
   intros tbl G keys q q' Hq Hi H.
-  exact (proj1 (full_simplify_sound tbl _ keys (good_scale_pos tbl G) q q' Hq Hi H)).
+  destruct (full_simplify_sound tbl _ keys (good_scale_pos tbl G) q q' Hq Hi H) as (A & _ & B). auto.
 Qed.
 Print Assumptions C05_preserves_partial.
 
@@ -69,13 +81,13 @@ Proof.
 Qed.
 Print Assumptions C05_back.
 
-(* full statement (not proved): no [h3_ints] hypothesis, dimension included, no panic *)
+(* full statement (not proved): without [h3_ints], i.e. for group targets with
+   non-integer exponents, whose sizes are not rational *)
 Definition C05_full : Prop :=
-  forall tbl, good_table tbl -> forall q,
+  forall tbl, good_table tbl -> forall q q',
     unit_int (q_unit q) = true ->
-    exists q', full_simplify QcN tbl (resolve QcN tbl) (all_keys QcN tbl (resolve QcN tbl)) q = Ok q'
-               /\ DenQ (resolve QcN tbl) q' = DenQ (resolve QcN tbl) q
-               /\ (q_val q <> 0 -> forall x, dimv (resolve QcN tbl) (q_unit q') x = dimv (resolve QcN tbl) (q_unit q) x).
+    full_simplify QcN tbl (resolve QcN tbl) (all_keys QcN tbl (resolve QcN tbl)) q = Ok q' ->
+    DenQ (resolve QcN tbl) q' = DenQ (resolve QcN tbl) q.
 
 (* ---- non-vacuity (demo table): 2 km/h * 3 h is simplified by heuristic 3 to 6 km;
    5 ft * inch  to 60 in^2 by heuristic 2; 3 percent * gram to 0.03 g (scalar group);
